@@ -23,7 +23,7 @@ type deferred struct {
 
 // State is one disjunct of the abstract state at a program point.
 type State struct {
-	Log []*WriteRec // writes into byte buffers along this path (encoder layout extraction)
+	Log    []*WriteRec // writes into byte buffers along this path (encoder layout extraction)
 	Cons   *ConSet
 	Heap   map[Loc]Term
 	Env    map[ssa.Value]Term
